@@ -65,7 +65,10 @@ DIRECT_R = ["import nosuchmodule;", 'include "/nonexistent/file.bloc";', "a = no
             "function f1(x) return integer is begin return nosuch; end;", "function f2(x, y) return integer is begin return x +; end;",
             "function f3() return string is begin return 1 +; end;", "function fr(n) return integer is begin return n.at(; end;",
             "function f2(x) return integer is begin for q in 1 to loop end;", "forall e in t loop t.concat(1); end loop;",
-            "for i in 1 to 3 loop i = \"s\"; end loop;", "forall e in t loop e = \"s\"; end loop;"]
+            "for i in 1 to 3 loop i = \"s\"; end loop;", "forall e in t loop e = \"s\"; end loop;",
+            # the path expression of include / import is evaluated while compiling: a run-time error there rejects the text like any other
+            'a = "s"; include str(1 / (e - e));', 'function f1(x) return integer is begin return x + 9; end; include "x" + str(1 / (e - e));',
+            'a = "s"; import str(1 / (e - e));', 'd = "t"; include str(tab(1, 1).at(5));']
 
 PROBES = ('print a s d $k isnull(n) typeof(ty) r@1 r@2 t.count() tt.count() b.count();\n'
           'forall pe in t loop put pe " "; end loop; print "";\n'
@@ -172,12 +175,35 @@ def gen_factory(tier):
     return gen
 
 
+MODNAMES = ["utf8", "csv", "file", "sqlite3"]
+
+
+def modname_gen():
+    """a rejected text that imports a module: a variable of that name, valid before, must stay usable (each case in its own process:
+    the set of loaded modules is process-wide)"""
+    def gen():
+        for n, mod in enumerate(MODNAMES):
+            for tail in ("zz9 = ;", "a = 1 +;"):
+                ops = ["isolate", op_ctx(0), op_run("%s = 5; print %s;" % (mod, mod)), op_run("import %s; %s" % (mod, tail)),
+                       op_run("%s = %s + 1; print %s;" % (mod, mod, mod)), op_out(0)]
+                yield Case("m%d" % n, ops, {"kind": "modname", "mod": mod, "tail": tail})
+    return gen
+
+
 def check(case, res):
     vs = generic_safety(case, res)
     if res.get("st") != "done":
         return vs, True
     m = case.meta
     st = res["steps"]
+    if m.get("kind") == "modname":
+        before, rej, after, out = st[2], st[3], st[4], unhex(st[5].get("out", ""))
+        if before.get("r") != "ok" or rej.get("r") != "perr":
+            return vs, False
+        if after.get("r") != "ok" or out != b"5\n6\n":
+            vs.append(Violation("import-in-rejected-text:name-becomes-reserved:%s" % m["mod"], "after the rejected text 'import %s; %s' the program '%s = %s + 1;' "
+                                "that was valid before gives %s (printed %r)" % (m["mod"], m["tail"], m["mod"], m["mod"], after, out), case))
+        return vs, True
     if st[1].get("r") != "ok":
         vs.append(Violation("setup-rejected", "prefix rejected: %s" % st[1], case))
         return vs, False
@@ -241,6 +267,7 @@ def short(x):
 def run(tier):
     t0 = time.time()
     res = explore(PROP + "-" + tier, gen_factory(tier), check, chunk=100, deadline=t0 + (3000 if tier == "thorough" else 420))
+    res.merge(explore(PROP + "-" + tier + "-module-names", modname_gen(), check, chunk=2, deadline=t0 + (3000 if tier == "thorough" else 420)))
     rule = ("for %d prefixes x %d valid texts: every truncation at a token boundary and every single-token replacement by %d poison tokens, plus %d directly "
             "invalid texts%s; kept iff rejected by the parser; routes Parser::parse / bloc_parse_executable / interactive parseStatement+clear; "
             "non-trivial = the text was rejected and the comparison was made" % (len(PREFIXES) if tier == "thorough" else 2, len(QS), len(POISON), len(DIRECT_R),
